@@ -303,6 +303,19 @@ func (c *Ctx) unitOf(v ssa.Value, seen map[ssa.Value]bool) []string {
 		}
 	case *ssa.Extract:
 		return c.unitOf(x.Tuple, seen)
+	case *ssa.Parameter:
+		// handed in by the caller(s): what they pass
+		sites := c.callsTo(x.Parent())
+		if len(sites) == 0 {
+			return []string{"OTHER:" + v.String()}
+		}
+		var out []string
+		for _, site := range sites {
+			if a := argFor(site.Common(), x); a != nil {
+				out = append(out, c.unitOf(a, seen)...)
+			}
+		}
+		return out
 	case *ssa.Phi:
 		var out []string
 		for _, e := range x.Edges {
@@ -766,6 +779,48 @@ func init() {
 				}
 			}
 			key = "persistMergedRestField/tracker-reset"
+			// the tracker may live in a statistics object handed to the function: then "clearing
+			// it" is calling a method of that object which always clears one of its bitmap fields
+			clearsOwnBitmap := func(m *ssa.Function) bool {
+				if m == nil || m.Blocks == nil || m.Signature.Recv() == nil {
+					return false
+				}
+				for _, call := range callsOfName(m, "Clear") {
+					if sc := call.Call.StaticCallee(); sc == nil || sc.Signature.Recv() == nil || !isRoaringBitmapPtr(sc.Signature.Recv().Type()) {
+						continue
+					}
+					ld, ok := call.Call.Args[0].(*ssa.UnOp)
+					if !ok {
+						continue
+					}
+					fa, ok := ld.X.(*ssa.FieldAddr)
+					if !ok || fa.X != ssa.Value(m.Params[0]) {
+						continue
+					}
+					all := true
+					for _, rb := range m.Blocks {
+						if _, isRet := rb.Instrs[len(rb.Instrs)-1].(*ssa.Return); isRet && !(call.Block() == rb || call.Block().Dominates(rb)) {
+							all = false
+						}
+					}
+					if all {
+						return true
+					}
+				}
+				return false
+			}
+			if tracker == nil {
+				for _, prm := range pmr.Params {
+					if prm.Referrers() == nil {
+						continue
+					}
+					for _, ref := range *prm.Referrers() {
+						if call, ok := ref.(*ssa.Call); ok && len(call.Call.Args) > 0 && call.Call.Args[0] == ssa.Value(prm) && clearsOwnBitmap(call.Call.StaticCallee()) {
+							tracker = prm
+						}
+					}
+				}
+			}
 			if tracker == nil {
 				r.undecided(key, fnName(pmr), c.pos(pmr.Pos()), "parameter fieldDocTracking not found")
 			} else {
@@ -773,6 +828,9 @@ func init() {
 				for _, ref := range *tracker.Referrers() {
 					if call, ok := ref.(*ssa.Call); ok {
 						if sc := call.Call.StaticCallee(); sc != nil && sc.Name() == "Clear" && call.Call.Args[0] == ssa.Value(tracker) {
+							clr = call
+						}
+						if len(call.Call.Args) > 0 && call.Call.Args[0] == ssa.Value(tracker) && clearsOwnBitmap(call.Call.StaticCallee()) {
 							clr = call
 						}
 					}
